@@ -12,9 +12,10 @@
 //     Z.shiftr, results = the Go result tuple with `error` as a bool flag.
 //
 // `if` and early `return` are translated by duplicating the continuation; assignments are shadowing lets.
-// Anything outside the supported subset inside a listed function (or a function it calls) stops the program with a
-// non-zero exit status and a message naming the function and the construct. The output depends only on the
-// content of the source files (no paths, no time stamps).
+// Anything outside the supported subset inside a listed function (or a function it calls) is reported on stderr
+// (`vtrans: rejected: file=<output file> definitions=<Coq names>: <position>: function ..: unsupported construct: ..`),
+// the definition is left out, everything else is written, and the exit status is 3 (1: nothing could be written).
+// The output depends only on the content of the source files (no paths, no time stamps).
 package main
 
 import (
@@ -41,6 +42,16 @@ type target struct {
 	name   string // Go name
 	out    string // Coq name
 	prefix bool   // translate only the statements before the first `for`; the result is the loop's (first, last)
+}
+
+func (tg target) coqName() string {
+	if tg.out != "" {
+		return tg.out
+	}
+	if tg.recv != "" {
+		return tg.recv + "_" + tg.name
+	}
+	return tg.name
 }
 
 var targets = []target{
@@ -130,12 +141,53 @@ type translator struct {
 	inProgress map[string]bool
 	hints      []string
 
+	rejected []rejection // definitions that could not be produced (the rest is written)
+
 	// float file (float.go)
 	fused    map[string]bool
 	fglobals map[string]string
 	ffuncs   []string
 	fsigs    map[string]*sig
 	fhints   []string
+}
+
+// one unit of output (a definition or a group of constants) the source was rejected for
+type rejection struct {
+	file string // Generated.v or GeneratedF.v
+	defs string // the Coq names that are missing from that file, comma separated (a trailing * = every name with this prefix)
+	msg  string
+}
+
+const (
+	intFile   = "Generated.v"
+	floatFile = "GeneratedF.v"
+)
+
+// run one unit; a rejection of the source inside it is recorded and the unit's definitions are left out
+func (t *translator) try(file, defs string, f func()) {
+	defer func() {
+		if r := recover(); r != nil {
+			if fl, ok := r.(failure); ok {
+				t.rejected = append(t.rejected, rejection{file, defs, fl.msg})
+				return
+			}
+			panic(r)
+		}
+	}()
+	f()
+}
+
+func (t *translator) rejectedNote(file string) string {
+	var b strings.Builder
+	for _, r := range t.rejected {
+		if r.file == file {
+			fmt.Fprintf(&b, "(* NOT PRODUCED: %s — the translator rejected the source: %s *)\n", r.defs, strings.ReplaceAll(r.msg, "*)", "* )"))
+		}
+	}
+	if b.Len() > 0 {
+		b.WriteString("\n")
+	}
+	return b.String()
 }
 
 func recvTypeName(fd *ast.FuncDecl) string {
@@ -1688,7 +1740,8 @@ func (t *translator) packageConsts(dir string, onlyFile string) int {
 					if nm.Name == "_" {
 						continue
 					}
-					t.emitConst(p, p.consts[nm.Name], "")
+					name := nm.Name
+					t.try(intFile, name, func() { t.emitConst(p, p.consts[name], "") })
 					n++
 				}
 			}
@@ -1919,20 +1972,25 @@ func run(repo, out, outF string) {
 		globals: map[string]string{}, sigs: map[string]*sig{}, inProgress: map[string]bool{},
 		fused: map[string]bool{}, fglobals: map[string]string{}, fsigs: map[string]*sig{}}
 
-	// constants
-	if t.packageConsts(constsPkg, "") == 0 {
-		failf("package %s declares no constants", constsPkg)
-	}
-	if t.packageConsts(linePkg, lineFile) == 0 {
-		failf("%s declares no constants (the line thresholds are expected there)", lineFile)
-	}
-	t.lineSwitches()
-	t.setLatConsts()
-	t.quadkeyBounds()
+	// constants; every unit that is rejected is left out and reported, the others are written
+	t.try(intFile, "the constants of "+constsPkg, func() {
+		if t.packageConsts(constsPkg, "") == 0 {
+			failf("package %s declares no constants", constsPkg)
+		}
+	})
+	t.try(intFile, "LonMinima,LatMinima,AltMinima,HightZoomLonMinima,HightZoomLatMinima,HightZoomAltMinima", func() {
+		if t.packageConsts(linePkg, lineFile) == 0 {
+			failf("%s declares no constants (the line thresholds are expected there)", lineFile)
+		}
+	})
+	t.try(intFile, "LineSwitch_*", t.lineSwitches)
+	t.try(intFile, "SetLat_limit,SetLat_scale", t.setLatConsts)
+	t.try(intFile, "QuadkeyZoom_*", t.quadkeyBounds)
 	nFixedConsts := len(t.consts)
 	// functions (constants met on the way are appended to t.consts)
 	for _, tg := range targets {
-		t.function(tg, nil)
+		tg := tg
+		t.try(intFile, tg.coqName(), func() { t.function(tg, nil) })
 	}
 
 	var files []string
@@ -1954,6 +2012,7 @@ func run(repo, out, outF string) {
 	}
 	b.WriteString("*)\n")
 	b.WriteString("From Coq Require Import ZArith Bool.\nOpen Scope Z_scope.\n\n")
+	b.WriteString(t.rejectedNote(intFile))
 	b.WriteString("(* ---- constants ---- *)\n")
 	for i, c := range t.consts {
 		if i == nFixedConsts {
@@ -1971,7 +2030,7 @@ func run(repo, out, outF string) {
 	for _, h := range t.hints {
 		fmt.Fprintf(&b, "#[global] Hint Unfold %s : sidgen.\n", h)
 	}
-	// the float file is produced before anything is written: a rejected float kernel leaves both files untouched
+	// the float file is produced before anything is written
 	var textF string
 	if outF != "" {
 		textF = t.runFloat(abs)
@@ -1983,6 +2042,14 @@ func run(repo, out, outF string) {
 		if err := os.WriteFile(outF, []byte(textF), 0o644); err != nil {
 			failf("cannot write %s: %v", outF, err)
 		}
+	}
+	if len(t.rejected) > 0 {
+		// machine-readable: one line per missing unit, then the count; both files have been written without these definitions
+		for _, r := range t.rejected {
+			fmt.Fprintf(os.Stderr, "vtrans: rejected: file=%s definitions=%s: %s\n", r.file, r.defs, r.msg)
+		}
+		fmt.Fprintf(os.Stderr, "vtrans: %d unit(s) of output not produced; everything else has been written\n", len(t.rejected))
+		os.Exit(3)
 	}
 }
 
